@@ -8,7 +8,8 @@ From Coq Require Import ZArith List Bool Permutation Lia.
 From FT Require Import Model.Base Model.Obs Model.C09Transform Model.C09Check
                        Proofs.C09OrderP Proofs.C09FlattenP Proofs.C09BelowP Proofs.C09CheckP
                        Proofs.C09SwizzleP Proofs.C09WfP Proofs.C09RebuildP Proofs.C09SwapP Proofs.C09UnflP
-                       Proofs.C09SplitP Proofs.C09LinearP Proofs.C09RefP Proofs.C09SpecP.
+                       Proofs.C09SplitP Proofs.C09LinearP Proofs.C09RefP Proofs.C09SpecP
+                       Proofs.C09DescentP Proofs.C09UnflWfP Proofs.C09SwapSpecP Proofs.C09ComposeP.
 Import ListNotations.
 Open Scope Z_scope.
 
@@ -257,15 +258,13 @@ Proof. exact content_ok_sound. Qed.
 Print Assumptions C09_oracle_sound.
 
 (* Full statement wanted:  forall c, c09_wf c = true -> holds c09_checker c (model c09_checker c) = true.
-   Proved: for OSwizzle, OSwizzleInv (C09_model_meets_spec_swizzle) and OFlatten at depth 0 in
-   all three styles (C09_model_meets_spec_flatten_root), via C09_content_ok_bijective.
-   Proved for every operation: the observation pipeline is lossless (below) - the oracle
+   Proved (C09_model_meets_spec_proved_ops below): for OSwizzle, OSwizzleInv, OSwap, OFlatten (all
+   styles), OFlatUnflat and OSplitFlat at every depth and number of levels.
+   NOT proved: OMerge (the grouping of colliding keys and _mergeToFibertree's union recursion)
+   and OSwapSwap (needs the swap result to be shown inside swap's own domain, i.e. int
+   coordinates of the result).  For those two the statement below still applies: the oracle
    evaluated on the model's encoded observation is the oracle evaluated on the model's result
-   tree, so verdict bit 4 of every run tests exactly "the model's result satisfies the property".
-   Clause theorems exist (content) for swap at any depth, flatten below the root (C09_below),
-   unflatten . flatten, flatten(split); NOT yet connected to the oracle for those operations:
-   csorted/cdepth_ok of the swap / unflatten / Below results.  NOT proved at all: the
-   absolute / relative merge (grouping of colliding keys and _mergeToFibertree's union). *)
+   tree, so verdict bit 4 of every run tests exactly "the model's result satisfies the property". *)
 Theorem C09_model_meets_spec_partial : forall c,
   holds c09_checker c (model c09_checker c)
   = c09_wf c &&
@@ -278,12 +277,63 @@ Theorem C09_model_meets_spec_partial : forall c,
 Proof. exact c09_pipeline. Qed.
 Print Assumptions C09_model_meets_spec_partial.
 
-(* the operations for which "the model satisfies the oracle" is proved for all well-formed cases *)
+(* [good M r]: the fiber r is sorted at every level and has uniform depth M+1 *)
+
+(* the *Below descent keeps well-formedness: if the fiber transform returns well-formed fibers on
+   the (non-empty) fibers k+1 levels down, the descended tree is well formed *)
+Theorem C09_below_wf : forall (W : cfib -> Prop) f d M,
+  (forall s r', W s -> cempty d (CN s) = false -> f s = Some r' -> good M r') ->
+  forall k es r, at_depth k W es -> csorted (CN es) = true -> upd_below k f d es = Some r ->
+  good (S k + M) r.
+Proof. exact below_wf. Qed.
+Print Assumptions C09_below_wf.
+
+(* two successive descents to the same depth are one descent of the composed fiber transform
+   (with the emptiness test of updatePayloads in between) *)
+Theorem C09_descents_compose : forall f1 f2 d k es r1, upd_below k f1 d es = Some r1 ->
+  upd_below k f2 d r1 = upd_below k (f12 f1 f2 d) d es.
+Proof. exact upd_below_compose. Qed.
+Print Assumptions C09_descents_compose.
+
+(* unflattenRanks(levels = l) of any non-empty fiber with strictly ascending tuple coordinates of
+   l+1 components and well-formed payloads succeeds and returns a well-formed fiber: the
+   grouping loop emits groups with strictly ascending upper coordinates, each sorted *)
+Theorem C09_unflatten_wf : forall l s M, s <> [] -> pw ccmp (map fst s) ->
+  Forall (fun cp : coord * ct => length (fst cp) = S l) s ->
+  Forall (fun cp => gpay M (snd cp)) s ->
+  exists r, unflatten l s = Some r /\ good (l + M) r.
+Proof. exact unflatten_wf. Qed.
+Print Assumptions C09_unflatten_wf.
+
+(* the result of Fiber.swapRanks is well formed *)
+Theorem C09_swap_wf : forall fuel d es M r, wfl 1 es -> deepP 1 (gpay M) es ->
+  swap_fiber fuel d es = Some r -> good (1 + M) r.
+Proof. exact swap_fiber_good. Qed.
+Print Assumptions C09_swap_wf.
+
+(* unflatten(flatten) and flatten-absolute(split) of one fiber of the domain, with the
+   emptiness test in between: same content, well formed *)
+Theorem C09_unflatten_flatten_fiber : forall style l N sh fuel d s,
+  style = st_tuple \/ style = st_pair -> (S l < N)%nat -> length sh = N -> Wb N sh s ->
+  exists r', f12 (merge_helper (S l) style true fuel sh d) (unflatten (S l)) d s = Some r'
+    /\ ccontent d (CN r') = ccontent d (CN s) /\ good (N - 1) r'.
+Proof. exact fu_fiber. Qed.
+Print Assumptions C09_unflatten_flatten_fiber.
+
+Theorem C09_split_flatten_fiber : forall step fuel N sh d s, (1 <= N)%nat -> Wb N sh s ->
+  f12 (fun s0 => Some (split_uniform step d s0)) (merge_helper 1 st_absolute true fuel [] d) d s
+  = Some (cpresent d s)
+  /\ ccontent d (CN (cpresent d s)) = ccontent d (CN s) /\ good (N - 1) (cpresent d s).
+Proof. exact sf_fiber. Qed.
+Print Assumptions C09_split_flatten_fiber.
+
+(* the operations for which "the model satisfies the oracle" is proved for all well-formed
+   cases: every operation, at every depth, number of levels and style, except mergeRanks
+   (absolute / relative) and the double swap *)
 Definition proved_op (o : op) : bool :=
   match o with
-  | OSwizzle _ | OSwizzleInv _ => true
-  | OFlatten O _ _ => true
-  | _ => false
+  | OMerge _ _ _ | OSwapSwap _ => false
+  | _ => true
   end.
 
 Theorem C09_model_meets_spec_proved_ops : forall c,
@@ -293,7 +343,10 @@ Proof.
   intros c Hwf Hp. destruct (k_op c) as [perm|perm|dp|dp|dp lv st|dp lv st|dp lv st|dp stp] eqn:E; try discriminate.
   - eapply spec_swizzle; eauto.
   - eapply spec_swizzle_inv; eauto.
-  - destruct dp; [|discriminate]. eapply spec_flatten_root; eauto.
+  - eapply spec_swap; eauto.
+  - destruct dp; [eapply spec_flatten_root|eapply spec_flatten_below]; eauto.
+  - eapply spec_flatunflat; eauto.
+  - eapply spec_splitflat; eauto.
 Qed.
 Print Assumptions C09_model_meets_spec_proved_ops.
 
